@@ -247,3 +247,56 @@ Theorem c02_wake_batch_without_fence_refuted : batch_wake_safe false = false.
 Proof. exact batch_wake_unfenced_refuted. Qed.
 Print Assumptions c02_wake_batch_without_fence_refuted.
 
+
+(* ---- the deadline of a timed wait (clause "returns no later than its deadline plus scheduling delay") ----
+   BQDeadlineModel is the loop of SlotFutex::block_until_reach_expected_version_slow (futex wait, refresh of the
+   remaining time after every wake-up that did not bring the version) and of spin_until_reach_expected_version_slow
+   (usleep quantum, deadline test) against an arbitrary list of environment events; which timeout the refresh starts
+   from, that it is stored back, that begin is sampled once, that ETIMEDOUT leaves the loop, the subtraction, both
+   expiry tests, the spin deadline and the quantum are regenerated from bounded_queue.hpp.  For EVERY number and timing
+   of spurious or genuine wake-ups the call leaves no later than begin + timeout + one scheduling delay (+ one quantum
+   when spinning), and a call that is still waiting has only seen events before its deadline.  Together with
+   c02_timed_pop_tail_never_waits (nothing behind the wait can block) this is the deadline clause for
+   try_pop_n_exclusively_until. *)
+Require Import Verif.BQ.BQDeadlineModel Verif.BQ.BQDeadline.
+Theorem c02_timed_futex_wait_meets_deadline : forall delay begin timeout evs x,
+  0 <= delay -> 0 < timeout ->
+  block_env delay timeout begin timeout begin evs ->
+  block_loop timeout begin timeout evs = Some x ->
+  begin <= x <= begin + timeout + delay.
+Proof. exact block_deadline. Qed.
+Print Assumptions c02_timed_futex_wait_meets_deadline.
+
+Theorem c02_timed_futex_wait_nonpositive_timeout : forall delay begin timeout evs x,
+  0 <= delay -> timeout <= 0 ->
+  block_env delay timeout begin timeout begin evs ->
+  block_loop timeout begin timeout evs = Some x ->
+  begin <= x <= begin + delay.
+Proof. exact block_deadline_nonpositive. Qed.
+Print Assumptions c02_timed_futex_wait_nonpositive_timeout.
+
+Theorem c02_timed_futex_wait_only_waits_before_deadline : forall delay begin timeout evs w,
+  0 <= delay -> 0 < timeout ->
+  block_env delay timeout begin timeout begin evs ->
+  block_loop timeout begin timeout evs = None ->
+  In w evs -> wake_time w < begin + timeout.
+Proof. exact block_still_waiting_before_deadline. Qed.
+Print Assumptions c02_timed_futex_wait_only_waits_before_deadline.
+
+Theorem c02_timed_spin_wait_meets_deadline : forall delay begin timeout evs x,
+  0 <= delay -> 0 <= timeout ->
+  spin_env delay begin evs -> spin_loop (spin_deadline begin timeout) evs = Some x ->
+  begin <= x <= begin + timeout + spin_quantum_us * 1000 + delay.
+Proof. exact spin_deadline_bound. Qed.
+Print Assumptions c02_timed_spin_wait_meets_deadline.
+
+Example c02_timed_wait_hypotheses_satisfiable :
+  block_env 5 100 0 100 0 [Woken 40 false; TimedOut 103] /\
+  block_loop 100 0 100 [Woken 40 false; TimedOut 103] = Some 103.
+Proof. exact block_deadline_nonvacuous. Qed.
+(* observation, not a finding (the property bounds the return only from above): after two wake-ups without the version
+   the refresh has subtracted the elapsed time twice and the wait ends before its deadline *)
+Example c02_timed_wait_may_end_early :
+  block_env 0 100 0 100 0 [Woken 40 false; Woken 70 false] /\
+  block_loop 100 0 100 [Woken 40 false; Woken 70 false] = Some 70.
+Proof. exact block_early_after_two_wakeups. Qed.
